@@ -812,39 +812,129 @@ def area_nan(rng, a):
     return kind
 
 
+def _focal_raster(rng, pool, hmax=6, wmax=6):
+    """raster shapes: 1x1, one row, one column, general; contents: from `pool`, all NaN, all one value, one non-NaN cell"""
+    k = rng.random()
+    if k < 0.03:                             # an empty raster: no rows, no columns, or neither
+        h, w = rng.choice([(0, 3), (2, 0), (0, 0), (0, 1)])
+        return np.zeros((h, w)), ["empty", "zeros"]
+    if k < 0.08:
+        h, w, cls = 1, 1, "1x1"
+    elif k < 0.2:
+        h, w, cls = 1, rng.randint(2, wmax), "1xN"
+    elif k < 0.32:
+        h, w, cls = rng.randint(2, hmax), 1, "Nx1"
+    elif k < 0.4:
+        h, w, cls = 2, 2, "2x2"
+    else:
+        h, w, cls = rng.randint(2, hmax), rng.randint(2, wmax), "HxW"
+    k = rng.random()
+    if k < 0.08:
+        data, fill = np.full((h, w), NAN), "allnan"
+    elif k < 0.14:
+        data, fill = np.full((h, w), rng.choice([0.0, 1.0, -2.0, INF])), "const"
+    elif k < 0.22:
+        data, fill = np.full((h, w), NAN), "onecell"
+        data[rng.randrange(h), rng.randrange(w)] = rng.choice([1.0, -3.0, 0.5, INF, -INF])
+    else:
+        data, fill = np.array(pick_vals(rng, pool, h * w), dtype=np.float64).reshape(h, w), "mixed"
+    return data, [cls, fill]
+
+
 def gen_mean(rng):
-    data = grid(rng, [0.0, 1.0, 2.0, 3.0, -1.0, 0.5, NAN, NAN, INF], 5, 5)
-    ex = rng.choice([[NAN], [NAN], [], [0.0], [NAN, 1.0], [INF], [2.0, 3.0]])
-    return dict(data=data.tolist(), ex=ex)
+    """rasters 1x1 / 1xN / Nx1 / 2x2 / general up to 6x6 (the 3x3 window clipped on one, two, three or four sides); cells: small
+    integers and dyadic fractions, NaN (none, some, all, all but one), +-inf (`inf - inf` in a window), -0.0; excludes: empty,
+    [NaN], one or several finite values (present in the raster or not, duplicates), +-inf, NaN together with values, -0.0
+    against 0.0."""
+    pool = rng.choice([[0.0, 1.0, 2.0, 3.0, -1.0, 0.5, NAN, NAN, INF],
+                       [0.0, 1.0, 2.0, 3.0, -1.0, 0.5, 4.0, -2.5],
+                       [1.0, 2.0, NAN, NAN, NAN],
+                       [0.0, -0.0, 1.0, INF, -INF, NAN, 7.0],
+                       [1.0, 2.0, 3.0, 4.0, 5.0, 6.0, 7.0, 8.0, 9.0]])
+    data, tags = _focal_raster(rng, pool)
+    k = rng.random()
+    if k < 0.15:
+        ex, et = [], "ex-empty"
+    elif k < 0.35:
+        ex, et = [NAN], "ex-nan"
+    elif k < 0.5:
+        ex, et = [rng.choice([0.0, 1.0, 2.0, -1.0, 9.0])], "ex-one"
+    elif k < 0.62:
+        ex, et = [rng.choice([INF, -INF])], "ex-inf"
+    elif k < 0.8:
+        ex, et = pick_vals(rng, [0.0, 1.0, 2.0, 3.0, 0.5, -1.0, 1.0, NAN, INF, -INF, -0.0], rng.randint(2, 5)), "ex-many"
+    elif k < 0.9:                            # values taken from the raster itself (several cells excluded, possibly all)
+        flat = data.ravel().tolist() or [0.0]
+        ex, et = [rng.choice(flat) for _ in range(rng.randint(1, 3))], "ex-from-data"
+    else:
+        ex, et = [-0.0, NAN], "ex-negzero-nan"
+    return dict(data=data.tolist(), shape=list(data.shape), ex=ex, tags=tags + [et])
+
+
+def _focal_data(c):
+    d = np.array(c["data"], dtype=np.float64)
+    return d.reshape(c["shape"]) if "shape" in c else d
 
 
 def line_mean(c):
-    return f"af.data={farr(c['data'])} af.excludes={farr(c['ex'])}"
+    return f"af.data={farr(_focal_data(c))} af.excludes={farr(c['ex'])}"
 
 
 def real_mean(c):
     f = mod("xrspatial.focal")._mean_numpy
-    d, ex = np.array(c["data"], dtype=np.float64), np.array(c["ex"], dtype=np.float64)
+    d, ex = _focal_data(c), np.array(c["ex"], dtype=np.float64)
     out = f(d, ex)
     return ["ret", farr(out), farr(d), farr(ex)]
 
 
 def gen_apply(rng):
-    kh, kw = rng.choice([1, 3, 3, 5]), rng.choice([1, 3, 3, 5])
-    data = grid(rng, [0.0, 1.0, 2.0, 3.0, -1.0, 0.5, 8.0, NAN, NAN], 6, 6)
-    pool = [1.0, 1.0, 1.0, 0.0, 0.0] + ([2.0, 0.5, -1.0, NAN] if rng.random() < 0.3 else [])
-    kernel = np.array(pick_vals(rng, pool, kh * kw)).reshape(kh, kw)
-    return dict(data=data.tolist(), kernel=kernel.tolist())
+    """odd kernel shapes 1..7 (square and not; smaller than, equal to and larger than the raster in either axis), rasters as for
+    `gen_mean` (float32-exact cells: `_apply_numpy` casts the raster to float32); kernels: 0/1 masks (none, some, all entries 1),
+    and entries that are *not* 1 and must not select a cell -- 2, 0.5, -1, NaN, inf, 1 + 2^-40 (a double next to 1); windows with
+    no selected cell, only NaN cells, +-inf cells (`inf - inf` in range / var / std).
+    Even kernel sides are rejected by `custom_kernel`; the bare function then indexes past the kernel (undefined behaviour in
+    numba, `Ctl.err` in the generated program: Proofs/ILApplyEven.lean), so they are not generated."""
+    pool = rng.choice([[0.0, 1.0, 2.0, 3.0, -1.0, 0.5, 8.0, NAN, NAN],
+                       [0.0, 1.0, 2.0, 3.0, -1.0, 0.5, 8.0, -4.0],
+                       [1.0, NAN, NAN, NAN],
+                       [0.0, 1.0, 2.0, INF, -INF, NAN, 16.0],
+                       [1.0, 2.0, 3.0, 4.0, 5.0, 6.0, 7.0]])
+    data, tags = _focal_raster(rng, pool)
+    h, w = data.shape
+    k = rng.random()
+    if k < 0.6 or h == 0 or w == 0:
+        kh, kw = rng.choice([1, 3, 3, 5]), rng.choice([1, 3, 3, 5])
+    elif k < 0.8:                            # larger than the raster in at least one axis
+        kh, kw = rng.choice([x for x in (3, 5, 7) if x > h] or [7]), rng.choice([1, 3, 5, 7])
+        tags.append("k>raster")
+    else:
+        kh, kw = rng.choice([1, 3, 5, 7]), rng.choice([x for x in (3, 5, 7) if x > w] or [7])
+        tags.append("k>raster")
+    k = rng.random()
+    if k < 0.35:
+        kpool, kt = [1.0, 1.0, 1.0, 0.0, 0.0], "k01"
+    elif k < 0.45:
+        kpool, kt = [1.0], "kones"
+    elif k < 0.52:
+        kpool, kt = [0.0], "kzeros"
+    elif k < 0.6:
+        kpool, kt = [0.0, 0.0, 0.0, 0.0, 1.0], "ksparse"
+    elif k < 0.85:
+        kpool, kt = [1.0, 1.0, 0.0, 2.0, 0.5, -1.0, NAN, INF, 1.0 + 2.0 ** -40], "kweights"
+    else:
+        kpool, kt = [2.0, 0.5, -1.0, NAN, 1.0 + 2.0 ** -40, 0.0], "kno1"
+    kernel = np.array(pick_vals(rng, kpool, kh * kw)).reshape(kh, kw)
+    return dict(data=data.tolist(), shape=list(data.shape), kernel=kernel.tolist(), tags=tags + [kt])
 
 
 def line_apply(c):
-    return f"af.data={farr(c['data'])} af.kernel={farr(c['kernel'])}"
+    return f"af.data={farr(_focal_data(c))} af.kernel={farr(c['kernel'])}"
 
 
 def real_apply(fname):
     def real(c):
         fo = mod("xrspatial.focal")
-        d, k = np.array(c["data"], dtype=np.float64), np.array(c["kernel"], dtype=np.float64)
+        d, k = _focal_data(c), np.array(c["kernel"], dtype=np.float64)
         out = fo._apply_numpy(d, k, getattr(fo, fname))
         return ["ret", farr(out), farr(d), farr(k)]
     return real
